@@ -169,7 +169,7 @@ fn kmp_family(ctx: &mut Ctx, name: &str, k: u64, maxpat: u32, maxtext: u32) {
         let text = vcore::nth_string(k, i % ntext);
         run_kmp(i, &pat, &text, acc);
         if i % 400_009 == 77 {
-            acc.sample(i, || json!({"pattern": kmp::letters(&pat), "text": kmp::letters(&text)}));
+            acc.sample(1000 + i, || json!({"pattern": kmp::letters(&pat), "text": kmp::letters(&text)}));
         }
     });
 }
@@ -200,14 +200,15 @@ fn main() {
 
     // (i) every history, no merging, both containers
     {
-        let len = ctx.pick(6u32, 7u32);
+        let len = ctx.pick(7u32, 8u32);
         let n = vcore::strings_upto(gmap::N_ACT as u64, len);
         for (container, name) in [("hash", "gmap-histories-hashmap"), ("vec", "gmap-histories-vec")] {
             ctx.family(name, &format!("every history of length <= {len} over 10 actions (insert(k,v,Local|Global) for k,v in {{0,1}}, begin_group, end_group also with no group open); after every step return value, get, len, is_empty, iter; at the end drain of end_group calls and replay law (visible values, ==, iter_all of the rebuilt map, drain of the rebuilt map)"), n, |i, acc| {
                 let h: Vec<u8> = vcore::nth_string(gmap::N_ACT as u64, i).into_iter().map(|x| x as u8).collect();
                 run_gmap(container, i, &h, acc);
-                if i % 100_003 == 4242 {
-                    acc.sample(i, || json!({"container": container, "history": gmap::render(&h)}));
+                if i == 7_424_242 && container == "hash" {
+                    // (sample indices only order the samples that are kept)
+                    acc.sample(1, || json!({"grouping_map_history": gmap::render(&h), "legend": "L/G k=v: local/global insert, { begin_group, } end_group", "checked": "return values, get/len/iter after every step against the stack-of-snapshots model; drain; replay law"}));
                 }
             });
         }
@@ -218,9 +219,9 @@ fn main() {
             continue;
         }
         let t = std::time::Instant::now();
-        let depth = ctx.pick(10usize, 14usize);
+        let depth = ctx.pick(11usize, 14usize);
         let deadline = std::time::Instant::now() + std::time::Duration::from_secs_f64(ctx.remaining_s().min(ctx.pick(60.0, 2400.0)));
-        let (mut acc, stats) = vcore::xs::bfs(gmap::N_ACT, depth, ctx.pick(3_000_000, 40_000_000), ctx.threads, deadline, gmap::init_fp(), |h, acc| {
+        let (acc, stats) = vcore::xs::bfs(gmap::N_ACT, depth, ctx.pick(3_000_000, 40_000_000), ctx.threads, deadline, gmap::init_fp(), |h, acc| {
             // the frontier history h[..n-1] is the representative of a distinct state: its continuation
             // check runs once, together with the first transition out of it
             if h.last() == Some(&0) {
@@ -228,11 +229,10 @@ fn main() {
             }
             run_gmap(container, u64::MAX, h, acc)
         });
-        acc.sample(0, || json!({"xs": {"container": container, "depth_completed": stats.depth_completed, "frontier_sizes": stats.frontier_sizes, "states": stats.states}}));
         ctx.extra(
             &format!("xs_{name}"),
             json!({"depth_completed": stats.depth_completed, "depth_bound": depth, "frontier_sizes": stats.frontier_sizes, "capped": stats.capped,
-            "fingerprint": "per level: the iter_all() segment (keys in that group's log with their values; level 0: the outermost values) and the value of each key visible at that level when the inner groups are ended (drain); exact because from_iter(iter_all()) == original is checked with the container's own PartialEq at every state"}),
+            "fingerprint": "per level: the iter_all() segment (keys in that group's log with their values; level 0: the outermost values) and the value of each key visible at that level when the inner groups are ended (drain), plus the physical number of slots of the backing store; exact because from_iter(iter_all()) == original is checked with the container's own PartialEq at every state"}),
         );
         ctx.push_family(
             name,
@@ -250,14 +250,14 @@ fn main() {
         ctx.family("interner-histories", &format!("every history of length <= {len} over get_or_intern/get x {:?}; each under RandomState and under a constant hasher, without and with a serde_json round trip before every position (incl. the end); resolve/get of everything after every step", intern::STRS), n, |i, acc| {
             let ops = vcore::nth_string(intern::N_OPS, i);
             run_interner(i, &ops, None, acc);
-            if i % 50_021 == 333 {
-                acc.sample(i, || json!({"interner_history": intern::render(&ops)}));
+            if i == 200_333 {
+                acc.sample(2, || json!({"interner_history": intern::render(&ops), "variants": "RandomState and constant hasher, without and with a serde round trip before every position"}));
             }
         });
     }
     // (iv) KMP
     kmp_family(&mut ctx, "kmp-binary", 2, 5, 12);
-    let tl = ctx.pick(9, 11);
+    let tl = ctx.pick(10, 12);
     kmp_family(&mut ctx, "kmp-ternary", 3, 4, tl);
     // nevec
     {
